@@ -251,7 +251,7 @@ def search(acc: Acc, tier, shard, nshards):
             acc.excl("out_of_stated_nesting_bounds")
             return []
         expand = not ch.chance(1, 5)
-        label, msg = classify(text, expand=expand, public=(counter["i"] % 50 == 0))
+        label, msg = classify(text, expand=expand, public=ch.chance(1, 50))
         nt = label.endswith(":middle") or (label == "accepted") or label.startswith("reject:Visit") or label.startswith("reject:UnexpectedCharacters")
         acc.case(text, nt, sample={"family": fam, "mutations": kinds, "outcome": label, "text": text[:300]} if 20 < len(text) < 300 else None)
         acc.cls("family:" + fam)
